@@ -98,20 +98,20 @@ PROFILES = {
                 startsecs=[0, 1, 2, 4, 8, 12], stopwaitsecs=[1, 2, 4, 8, 12], startretries=[0, 1, 2, 3],
                 p_wait_exit=0.0, event_drop=True, supvisors_failure_strategies=['CONTINUE'], need_timeout=True,
                 quiesce=120.0),
-    'C11': dict(builder='puppet', p_managed=0.8, p_numprocs=0.2, p_autostart=0.1, n_groups=[1, 2, 2], n_programs=[1, 2, 3],
+    'C11': dict(builder='puppet', mix=[('C12', 0.12), ('C05', 0.08)], p_managed=0.8, p_numprocs=0.2, p_autostart=0.1, n_groups=[1, 2, 2], n_programs=[1, 2, 3],
                 child_kinds=SIMPLE_CHILDREN, supvisors_failure_strategies=['CONTINUE'], p_auto_fence=0.3,
                 inactivity_ticks=[2, 2, 3], hostile=0.0, window=(18.0, 160.0), quiesce=45.0, n_events=(10, 120)),
-    'C13': dict(builder='puppet', p_managed=0.8, p_numprocs=0.1, p_autostart=0.2, n_groups=[1, 2], n_programs=[1, 2, 3],
+    'C13': dict(builder='puppet', mix=[('C07', 0.15), ('C01', 0.05)], p_managed=0.8, p_numprocs=0.1, p_autostart=0.2, n_groups=[1, 2], n_programs=[1, 2, 3],
                 child_kinds=SIMPLE_CHILDREN, supvisors_failure_strategies=['CONTINUE'], p_auto_fence=0.7,
                 inactivity_ticks=[2, 2, 3], hostile=0.2, window=(18.0, 160.0), quiesce=30.0, n_events=(20, 120),
                 p_sees_isolated=0.3, p_strategy_mismatch=0.25, n_real=[1, 1, 2],
                 weights={'event': 40, 'forced': 5, 'removed': 5, 'added': 5, 'down': 3, 'mute': 4, 'stealth': 2,
                          'disability': 5, 'op': 3, 'tick': 8, 'state': 8, 'replay': 12}),
-    'C15': dict(builder='puppet', p_managed=0.9, p_numprocs=0.25, p_autostart=0.2, n_groups=[1, 2, 2], n_programs=[1, 2, 3, 4],
+    'C15': dict(builder='puppet', mix=[('C12', 0.1), ('C03', 0.1)], p_managed=0.9, p_numprocs=0.25, p_autostart=0.2, n_groups=[1, 2, 2], n_programs=[1, 2, 3, 4],
                 child_kinds={'ok': 0.6, 'exit_late': 0.2, 'exit_early': 0.1, 'backoff_then_ok': 0.05, 'exec_fail': 0.05},
                 supvisors_failure_strategies=['CONTINUE'], p_auto_fence=0.3, formulas=0.7,
                 inactivity_ticks=[2, 2, 3], hostile=0.0, window=(18.0, 140.0), quiesce=40.0, n_events=(10, 100)),
-    'C17': dict(BASE, max_faults=3, min_faults=0, ops='gated', min_ops=6, max_ops=16, p_trigger_op=0.55, p_managed=0.7,
+    'C17': dict(BASE, max_faults=3, min_faults=0, ops='gated', ops_pairs=[0, 1, 1, 2], min_ops=6, max_ops=16, p_trigger_op=0.55, p_managed=0.7,
                 p_late_boot=0.4, p_absent=0.2, fault_weights={'crash': 1, 'restart': 3, 'partition': 2, 'child_exit': 1},
                 conciliation_strategies=['USER', 'USER', 'SENICIDE', 'STOP'], ops_window=(1.0, 200.0),
                 synchro_pool=['USER', 'USER', 'TIMEOUT', 'STRICT', 'LIST', 'CORE'], child_kinds=SIMPLE_CHILDREN,
@@ -141,6 +141,18 @@ PROFILES = {
 
 def build(prop, seed):
     prof = PROFILES[prop]
+    mix = prof.get('mix')
+    if mix:
+        # a share of the runs of a puppet profile are real clusters (another profile's scenario, this property's oracle)
+        r = random.Random(kernel.hash64(seed, 'mix')).random()
+        acc = 0.0
+        for base, share in mix:
+            acc += share
+            if r < acc:
+                scen = build(base, seed)
+                scen['prop'] = prop
+                scen['base_profile'] = base
+                return scen
     if prof.get('builder') == 'twin':
         return build_twin(prop, seed, prof)
     if prof.get('builder') == 'puppet':
@@ -168,6 +180,20 @@ def build(prop, seed):
                 plan.append({'kind': 'crash', 'inst': '$dst',
                              'trigger': {'wire': 'supvisors.start_args', 'n': rng.randint(1, 4), 'after': op['t'] - 1.0,
                                          'delay': gen.pick(rng, [0.0, 0.0, 0.001, 0.05, 0.5])}})
+    for _ in range(gen.pick(rng, prof.get('ops_pairs', [0]))):
+        # a request creating jobs on one instance, closely followed by restart_sequence on another one
+        nicks_ = [s_['nick'] for s_ in config['instances']]
+        if len(nicks_) < 2:
+            break
+        a, b = rng.sample(nicks_, 2)
+        t = rng.uniform(60.0, prof['fault_window'][1] - 10.0)
+        app = gen.pick(rng, [g['name'] for g in config['groups']])
+        method, args = gen.pick(rng, [('start_application', [0, app, False]), ('restart_application', [0, app, False]),
+                                      ('stop_application', [app, False]),
+                                      ('start_process', [0, gen.pick(rng, gen.namespecs_of(config)), '', False])])
+        plan.append({'t': round(t, 3), 'kind': 'rpc', 'inst': b, 'method': 'supvisors.' + method, 'args': args})
+        plan.append({'t': round(t + rng.uniform(0.02, 3.0), 3), 'kind': 'rpc', 'inst': a,
+                     'method': 'supvisors.restart_sequence', 'args': [False]})
     if prof.get('ops_near_fault'):
         # user operations landing between a crash and its detection: the loss is then handled while the Master's
         # Starter / Stopper is busy with something else
